@@ -68,6 +68,7 @@ func init() {
 		// vesting and signature entry points never mint or burn; every call respects the declared effect sets
 		return []*FuncReport{runEffectCheck(p, "supply", map[string]bool{EffMint: true, EffBurn: true}, vestSig)}
 	}
+	extraChecks["C13"] = func(p *Program, tier string) []*FuncReport { return []*FuncReport{runParamsWriterCheck(p)} }
 	extraChecks["C11"] = func(p *Program, tier string) []*FuncReport {
 		return []*FuncReport{runEffectCheck(p, "determinism", map[string]bool{EffTime: true, EffRand: true, EffMapRange: true, EffGo: true, EffGlobalW: true}, custom)}
 	}
